@@ -18,6 +18,7 @@ from hypothesis import strategies as st
 
 from vf.common import call_sut, run_given, shard_seed
 from vf.harness import cli, tree
+from vf.harness.probe import AnalysisProbe
 from vf.ref import gitignore as G
 
 ID = "C11"
@@ -118,6 +119,9 @@ def _yaml_list(pats):
     return "exclude:\n" + "".join(f"  - {json.dumps(p)}\n" for p in pats) if pats else "verbose: false\n"
 
 
+PROBE = {"usable": 0, "unusable": 0}  # per process: was the analysed-set observation connected to the scan?
+
+
 def run_case(case):
     from codelimit.common import Scanner
     from codelimit.common.Configuration import Configuration
@@ -139,13 +143,6 @@ def run_case(case):
             "sub-dotdot": (root.parent, "root/zz_anchor/.."),
             "absolute-dotdot": (root.parent, str(root / "zz_anchor" / "..")),
         }[spelling]
-        seen = []
-        orig = Scanner._analyze_file
-
-        def wrapper(path, rel_path, checksum, lexer):
-            seen.append(str(rel_path))
-            return orig(path, rel_path, checksum, lexer)
-
         def go():
             cli.reset_config()
             cli.add_excludes(case["option"])
@@ -154,13 +151,14 @@ def run_case(case):
 
         old = os.getcwd()
         os.chdir(cwd)
-        Scanner._analyze_file = wrapper
+        probe = AnalysisProbe(root, case["files"])
         try:
-            r = call_sut(go)
+            with probe:
+                r = call_sut(go)
         finally:
-            Scanner._analyze_file = orig
             os.chdir(old)
             cli.reset_config()
+        seen = probe.seen
         if r[0] == "exc":
             return (f"scan_path:{r[1]}", r[2])
         cb = r[1]
@@ -181,7 +179,8 @@ def run_case(case):
             return ("entry-language-or-checksum", f"{k}: {got[k]} != {want[k]}; {desc}")
         if cb.files[k].path != k:
             return ("entry-path", f"{k}: entry.path {cb.files[k].path!r}")
-    if sorted(seen) != sorted(want):
+    PROBE["usable" if probe.usable(len(got)) else "unusable"] += 1
+    if probe.usable(len(got)) and sorted(seen) != sorted(want):
         return ("analysed-set", f"_analyze_file saw {sorted(seen)}, expected exactly {sorted(want)}; {desc}")
     return None
 
@@ -256,7 +255,9 @@ def gen(col, seed, n, selftest=False):
             labels.append("builtin-excluded-present")
         if has_hidden:
             labels.append("hidden-present")
+        before = PROBE["unusable"]
         col.eval(case, nontrivial=has_hidden and cfg_excluded and deep, labels=labels)
+        col.label("analysed-set-observed" if PROBE["unusable"] == before else "analysed-set-observation-unavailable")
         col.samples = [s if not (isinstance(s, dict) and "files" in s and isinstance(s["files"], dict)) else dict(s, files=sorted(s["files"])) for s in col.samples]
 
     run_given(body, cases(), seed, n)
